@@ -181,7 +181,9 @@ fn fence_acq(execution: &mut Execution) {
     for state in execution.objects.iter_mut::<State>() {
         // Iterate all the stores
         for store in state.stores_mut() {
-            if !store.first_seen.is_seen_by_current(&execution.threads) {
+            // Only stores read by the current thread itself synchronize with
+            // the fence, not stores read by other threads in its causality.
+            if !store.first_seen.is_seen_by_active_thread(&execution.threads) {
                 continue;
             }
 
@@ -886,6 +888,10 @@ impl FirstSeen {
         }
 
         false
+    }
+
+    fn is_seen_by_active_thread(&self, threads: &thread::Set) -> bool {
+        self.0[threads.active_id().as_usize()] != u16::MAX
     }
 
     fn is_seen_before_yield(&self, threads: &thread::Set) -> bool {
